@@ -86,4 +86,10 @@ example :
       [.lookup 1 7, .gop 1 (.insert 5), .lookup 3 7, .enqueue 3, .lookup 2 7, .tryKey 2, .stamp 1, .release 1, .cleanupFailed 2, .acquire 3] =
       [.acquire 1 7, .write 1 7 (some 5), .wait 3 7] ++ SEv.release 1 7 :: ([] ++ SEv.grant 3 7 :: []) := by decide
 
+/-- … and in every run the stored value of a key changes only in a step whose abstract event is a write by the guard of
+that key ("nothing except an operation on a guard for that key ever changes, drops or resurrects a value"). -/
+theorem C02_history_only_guard_writes (k : Nat) (e : SEv) (sp sp₁ : Spec) (he : applyEv sp e = some sp₁)
+    (hne : sp₁.vals k ≠ sp.vals k) : ∃ h v, e = .write h k v ∧ sp.held k = some h :=
+  vals_change_only_by_guard_write k e sp sp₁ he hne
+
 end Lockable
